@@ -12,7 +12,10 @@
    Specification (Model/TableSpec.v): items = commands and if / else if / else chains, every
    node carrying its layout (indentation, blank and comment lines, trailing comments, letter
    case of command names and of FLAVOR / TYPE, quoting of values and literals, separators,
-   optional semicolon); print_table prints the text, denote_items is the meaning:
+   optional semicolon); a double quote that is part of a value is printed backslash, quote
+   (esc_dq; the manual: do not forget to escape the quotes), wherever it stands: inside a
+   quoted value, at one or both ends of a bare word, next to a separator;
+   print_table prints the text, denote_items is the meaning:
    unconditional commands in place, for each chain the body of the first branch whose
    condition is true by the truth tables, else the else body.
    All layout is universally quantified (it lives in the items); wf_items / wf_cond / wf_env
@@ -78,11 +81,94 @@ Print Assumptions cond_refuted_pinned.
 (* ------------------------------------------------------------------ arguments *)
 
 (* the arguments written are the arguments received: quoted values keep their blanks and
-   commas, whatever the separators and the quoting of the other values *)
+   commas, whatever the separators and the quoting of the other values; the double quotes
+   of a value, written backslash-quote, are received as double quotes.
+   Alphabet (wf_args): a value is not empty and has no hash, backslash, line end or control
+   character 1-3 - the double quote is allowed; a bare value has no blank and no comma; a
+   quoted value has no blank other than the space; the first value is bare; a separator is
+   blanks with at most one comma.  Outside, hence not claimed: a backslash that is not the
+   escape of a quote (a value ending in one, quoted, swallows the closing delimiter), the
+   empty quoted value, a quoted first value, an unescaped quote inside a word. *)
 Theorem args_roundtrip g args :
   wf_args g args = true -> split_args true (print_args g args) = args.
 Proof. apply split_print_args. Qed.
 Print Assumptions args_roundtrip.
+
+(* the escaping is the identity on values without double quote: every text of the alphabet
+   before quotes were admitted is printed as before *)
+Theorem args_escape_conservative a :
+  forallb (fun c => negb (ascii_eqb c c_dq)) a = true -> esc_dq a = a /\ forall q, pr_arg q a = pr_arg0 q a.
+Proof. intros H. split; [apply esc_dq_id, H|intros q; apply pr_arg_plain, H]. Qed.
+Print Assumptions args_escape_conservative.
+
+(* a bare word between two double quotes - the sh idiom of the manual, quote dollar-at quote -
+   is written with both quotes escaped and received with both: the delimiting quotes of an
+   argument are removed BEFORE the escaped ones are put back *)
+Theorem args_quoted_word_keeps_quotes name sep w :
+  wf_value name = true -> bare_ok name = true -> wf_sep sep = true ->
+  wf_value w = true -> bare_ok w = true ->
+  let g := mkArglay 0 [(sep, false)] 0 in
+  let a := c_dq :: w ++ [c_dq] in
+  print_args g [name; a] = esc_dq name ++ sep ++ [c_bsl; c_dq] ++ esc_dq w ++ [c_bsl; c_dq] /\
+  split_args true (print_args g [name; a]) = [name; a].
+Proof. apply split_quoted_word. Qed.
+Print Assumptions args_quoted_word_keeps_quotes.
+
+(* the same from the side of the TEXT: args_class (Model/TableSpec.v) decides whether a text
+   between the parentheses is inside the argument grammar; when it says Some args the text is
+   the print of those arguments under some layout and the splitter gives them back.  None is
+   the answer OUTSIDE: the harness counts those texts (argtext/outside) and only compares
+   model and implementation on them. *)
+Theorem args_text_sound t args :
+  args_class t = Some args ->
+  split_args true t = args /\ exists g, wf_args g args = true /\ print_args g args = t.
+Proof. apply args_class_sound. Qed.
+Print Assumptions args_text_sound.
+
+Example args_text_inhabited :
+  args_class (lit "runit, run \""$@\""") = Some [lit "runit"; lit "run"; lit """$@"""] /\
+  args_class (lit "foo, source `${PRODUCT_DIR}/bin/eups_setup setup \""$@\""`;")
+  = Some [lit "foo"; lit "source"; lit "`${PRODUCT_DIR}/bin/eups_setup"; lit "setup"; lit """$@""`;"] /\
+  args_class (lit " A , ""x \""y\"", z""  \""") = Some [lit "A"; lit "x ""y"", z"; lit """"] /\
+  (* outside: a backslash that escapes nothing, one before the closing quote, an unescaped
+     quote inside a word, text glued to a closing quote, a quoted first value, an empty
+     quoted value, two commas, a trailing comma, a tab *)
+  map args_class [lit "a\b"; lit "a, ""b\"""; lit "a""b c""d"; lit "a, ""b""c"; lit """a b"""; lit "a, """"";
+                  lit "a,,b"; lit "a, b,"; [chr 97; chr 9; chr 98]]
+  = [None; None; None; None; None; None; None; None; None].
+Proof. vm_compute. repeat split. Qed.
+
+(* inhabited: escaped quotes at both ends of a bare word, inside a quoted value next to a
+   blank and a comma, at the end of a bare word before a comma, a quoted lone quote *)
+Definition ex_qarglay : arglay :=
+  mkArglay 1 [(lit ", ", false); (lit " ", true); (lit ",", false); (lit " , ", true)] 0.
+Definition ex_qargs : list str :=
+  [lit "CFLAGS"; lit """-Wall"""; lit "say ""hi"", twice"; lit "-DNAME=""x"""; lit """"].
+
+Example args_roundtrip_inhabited_escaped_quotes :
+  wf_args ex_qarglay ex_qargs = true /\
+  print_args ex_qarglay ex_qargs = lit " CFLAGS, \""-Wall\"" ""say \""hi\"", twice"",-DNAME=\""x\"" , ""\""""" /\
+  split_args true (print_args ex_qarglay ex_qargs) = ex_qargs.
+Proof. vm_compute. repeat split. Qed.
+
+Example args_quoted_word_inhabited :
+  print_args (mkArglay 0 [(lit ", ", false)] 0) [lit "GREETING"; lit """hello"""] = lit "GREETING, \""hello\""" /\
+  split_args true (lit "GREETING, \""hello\""") = [lit "GREETING"; lit """hello"""] /\
+  split_args true (lit "runit, run \""$@\""") = [lit "runit"; lit "run"; lit """$@"""].
+Proof. vm_compute. repeat split. Qed.
+
+(* why the order of the passes matters: a splitter that puts the escaped quotes back before
+   it removes the delimiting quotes (the same passes, those two exchanged) takes the quotes
+   of such a word for delimiters *)
+Definition unprotect_early (s : str) : str :=
+  strip_dq (map_char c_03 c_comma (map_char c_02 c_dq (map_char c_01 c_sp s))).
+Definition split_args_early (s : str) : list str :=
+  map unprotect_early (split_set is_argsep (protect true s)).
+
+Example args_refuted_when_reinstated_early :
+  split_args_early (lit "GREETING, \""hello\""") = [lit "GREETING"; lit "hello"] /\
+  split_args_early (lit "FOO_OPTS, ""-I/x -I/y, "" b") = [lit "FOO_OPTS"; lit "-I/x -I/y, "; lit "b"].
+Proof. vm_compute. repeat split. Qed.
 
 Definition ex_arglay : arglay :=
   mkArglay 1 [(lit ", ", true); (lit " ", true); (lit " ,  ", false)] 0.
@@ -225,6 +311,23 @@ Example blocks_sound_inhabited :
   table_actions true true (lit "foo") (print_table ex_items) ex_env
   = Ok [ mkAction (lit "setupRequired") [lit "bar"; lit "1.0"] [(lit "optional", true)];
          mkAction (lit "envPrepend") [lit "PATH"; lit "/opt/p q/bin"; lit ":"] [(lit "append", true)] ].
+Proof. vm_compute. repeat split. Qed.
+
+(* the example of the manual (addAlias: do not forget to escape the quotes), character for
+   character, read as a table *)
+Definition ex_manual_cmd : cmd :=
+  mkCmd KAddAlias
+    [lit "foo"; lit "source"; lit "`${PRODUCT_DIR}/bin/eups_setup"; lit "setup"; lit """$@""`;"]
+    (mkCmdlay [] (lit "     ") (lit "addAlias") []
+       (mkArglay 0 [(lit ", ", false); (lit " ", false); (lit " ", false); (lit " ", false)] 0) [] true []).
+
+Example blocks_sound_inhabited_escaped_quotes :
+  wf_items [ICmd ex_manual_cmd] = true /\
+  print_table [ICmd ex_manual_cmd]
+  = lit "     addAlias(foo, source `${PRODUCT_DIR}/bin/eups_setup setup \""$@\""`;);" ++ [c_nl] /\
+  table_actions true true (lit "foo") (print_table [ICmd ex_manual_cmd]) ex_env
+  = Ok [ mkAction (lit "addAlias")
+           [lit "foo"; lit "source"; lit "`${PRODUCT_DIR}/bin/eups_setup"; lit "setup"; lit """$@""`;"] [] ].
 Proof. vm_compute. repeat split. Qed.
 
 (* ... and one with empty branches: if (type == exact) {} else if (FLAVOR == Linux64) {X}
